@@ -51,6 +51,10 @@ Exprs == Base \cup {[k |-> wk, e |-> e] : wk \in {"neg", "paren", "w1"}, e \in B
 AExpr == [simple |-> {Eff, IncA} \cup {Y(e) : e \in Exprs},
           inits |-> {None}, posts |-> {None, Y([k |-> "w1", e |-> Lit0]), Y([k |-> "neg", e |-> ObsA])}, conds |-> {T0},
           ifinits |-> {None}, kinds |-> {"if", "block", "for"}, jumps |-> {"return", "retx", "break"}, ranges |-> {}]
+\* jumps in depth: only what interacts with break / continue (loops with and without a yielding
+\* post statement, switch, if), so that nesting depth 4-5 is exhaustively reachable
+AJump == [simple |-> {Y(Lit0)}, inits |-> {None}, posts |-> {None, Y(Lit0)}, conds |-> {T0},
+          ifinits |-> {None}, kinds |-> {"if", "switch", "for"}, jumps |-> {"break", "continue"}, ranges |-> {}]
 ACtlX == [ACtl EXCEPT !.kinds = @ \cup {"switchd", "tswitch", "notag"}]
 \* range loops inside generators (C04): every collection kind x variable forms x body shapes
 RangeHdr(kind, xf, kf, vf) == [k |-> "range", id |-> 0, kind |-> kind, xf |-> xf, kf |-> kf, vf |-> vf, wrap |-> "none", body |-> <<>>]
@@ -67,7 +71,7 @@ ARange == [simple |-> {Y(VarK), Y(VarV), Mut("sset", 2), Mut("sapp", 0), Mut("st
            inits |-> {None}, posts |-> {None}, conds |-> {T0}, ifinits |-> {None},
            kinds |-> {"range", "if"}, jumps |-> {"break", "continue"}, ranges |-> Ranges]
 ARangeX == [ARange EXCEPT !.simple = @ \cup {Mut("nset", 0), Mut("strset", 0), Mut("sset", 0), Mut("aset", 0)}]
-A == CASE Family = "range" -> ARange [] Family = "rangex" -> ARangeX [] Family = "ctl" -> ACtl [] Family = "scope" -> AScope [] Family = "yf" -> AYf [] Family = "yfl" -> AYfL [] Family = "panic" -> APanic [] Family = "ctlx" -> ACtlX [] Family = "eff" -> AEff [] Family = "expr" -> AExpr
+A == CASE Family = "range" -> ARange [] Family = "rangex" -> ARangeX [] Family = "ctl" -> ACtl [] Family = "scope" -> AScope [] Family = "yf" -> AYf [] Family = "yfl" -> AYfL [] Family = "panic" -> APanic [] Family = "ctlx" -> ACtlX [] Family = "eff" -> AEff [] Family = "expr" -> AExpr [] Family = "jump" -> AJump
 
 \* Go scoping: `a := ...` at most once per block and never in the function's top block
 \* (a is a parameter there: "no new variables on left side of :=")
